@@ -8,6 +8,7 @@ import (
 	"net"
 	"strings"
 	"sync"
+	"sync/atomic"
 	"time"
 
 	"github.com/hashicorp/go-hclog"
@@ -202,8 +203,7 @@ func startServer(mux *gldap.Mux, tlsc *tls.Config, onClose func(int), extra ...g
 	gldap.VerifHook = s.tr.Hook
 	opts := []gldap.Option{gldap.WithLogger(hclog.NewNullLogger()), gldap.WithOnClose(func(id int) {
 		v, _ := s.closed.LoadOrStore(id, new(int32))
-		p := v.(*int32)
-		*p++
+		atomic.AddInt32(v.(*int32), 1)
 		if s.onClose != nil {
 			s.onClose(id)
 		}
